@@ -27,6 +27,7 @@
 #include <fstream>
 #include <new>
 #include "geom.h"
+#include "draco/compression/encode.h"
 #include "draco/animation/keyframe_animation.h"
 #include "draco/animation/keyframe_animation_decoder.h"
 #include "draco/compression/bit_coders/rans_bit_encoder.h"
@@ -953,10 +954,41 @@ static int run_one(const std::string &stream, const std::string &desc) {
   return 0;
 }
 
+// Valid kD-tree clouds of 4 points with A attributes of 255 uint8 components each (the encoder's own output): how much the decoder allocates for them.
+static int run_widekd() {
+  Shared sh{}; g_sh = &sh;
+  verif::DeclareSink() = on_declare;
+#ifdef VERIF_ALLOC_SHIM
+  const bool want_allocs = true;
+#else
+  const bool want_allocs = false;
+#endif
+  for (int A : {1, 2, 3, 8}) {
+    PointCloud pc;
+    const int np = 4;
+    pc.set_num_points(np);
+    for (int a = 0; a < A; ++a) {
+      GeometryAttribute ga;
+      ga.Init(a == 0 ? GeometryAttribute::POSITION : GeometryAttribute::GENERIC, nullptr, 255, DT_UINT8, false, 255, 0);
+      const int id = pc.AddAttribute(ga, true, np);
+      for (int i = 0; i < np; ++i) { uint8_t v[255]; for (int c = 0; c < 255; ++c) v[c] = (uint8_t)(i * 7 + c + a); pc.attribute(id)->SetAttributeValue(AttributeValueIndex(i), v); }
+    }
+    Encoder enc;
+    enc.SetEncodingMethod(POINT_CLOUD_KD_TREE_ENCODING);
+    enc.SetSpeedOptions(5, 5);
+    EncoderBuffer eb;
+    if (!enc.EncodePointCloudToBuffer(pc, &eb).ok()) continue;
+    g_emitted_ok = 0;
+    probe("wide-kd:" + std::to_string(A) + "x255", std::vector<char>(eb.data(), eb.data() + eb.size()), Fault{8, 0, 0, 0}, 0, want_allocs, -2);
+  }
+  return 0;
+}
+
 int main(int argc, char **argv) {
   if (getenv("VERIF_RECORDS")) { out.f = fopen(getenv("VERIF_RECORDS"), "w"); if (!out.f) return 2; }
   if (argc >= 7 && !strcmp(argv[1], "sweep")) return run_sweep(argv[2], atoi(argv[3]), atoi(argv[4]), atoi(argv[5]), strtoull(argv[6], 0, 10));
   if (argc >= 4 && !strcmp(argv[1], "one")) return run_one(argv[2], argv[3]);
+  if (argc >= 2 && !strcmp(argv[1], "widekd")) return run_widekd();
   if (argc >= 5 && !strcmp(argv[1], "hostile")) return run_hostile(argv[2], atoi(argv[3]), atoi(argv[4]));
   if (argc >= 3 && !strcmp(argv[1], "hostile1")) return run_hostile1(argv[2]);
   if (argc >= 3 && !strcmp(argv[1], "nest")) return run_nest(argv[2]);
